@@ -374,6 +374,7 @@ def send_tx(
     amount_to_send = int(send_fraction * total_available)
     total_amount = 0
     txins = []
+    selected_utxos = []
     for utxo in sender_txoutset["unspents"]:
         amount = round(utxo["amount"] * 1e8)
         txid = bytes.fromhex(utxo["txid"])[::-1]
@@ -407,6 +408,7 @@ def send_tx(
                 # p2wpkh / p2wsh
                 sender_scriptsig = b""
         txins.append(txin(outpoint(txid, vout), sender_scriptsig))
+        selected_utxos.append(utxo)
         total_amount += amount
         if total_amount >= amount_to_send:
             break
@@ -451,13 +453,13 @@ def send_tx(
             msgs = [
                 bip143.witness_message(
                     txins,
-                    utxo["vout"],
+                    txin_index,
                     round(utxo["amount"] * 1e8),
                     scriptcode,
                     txouts,
                     sighash_flag=sighash_flag,
                 )
-                for utxo in sender_txoutset["unspents"]
+                for txin_index, utxo in enumerate(selected_utxos)
             ]
             signatures = [
                 [
